@@ -85,7 +85,8 @@ Record argmeta := { am_gql : string;       (* key of the `arguments` dict = Grap
                     am_type : string;      (* "type" string the generator computes *)
                     am_exact : string;     (* the argument's exact GraphQL type (spec side) *)
                     am_required : bool;    (* positional (non-null) vs keyword-only = None *)
-                    am_ser : bool }.       (* value wrapped in the scalar's serialize(...) *)
+                    am_ser : bool;         (* value passed through the scalar's serialize(...) *)
+                    am_ty : gtype }.       (* the argument's GraphQL type (drives the serialize expression) *)
 Inductive okind := OFields | OIface | OUnion | OLeaf.
 Record fieldmeta := { fm_py : string;      (* attribute / method name on the class *)
                       fm_gql : string;     (* GraphQL field name (spec side) *)
@@ -100,7 +101,8 @@ Definition arg_meta (c : gconf) (a : argdef) : argmeta :=
   {| am_gql := a_name a; am_py := pyname c (a_name a);
      am_type := type_string (a_type a); am_exact := exact_string (a_type a);
      am_required := is_nonnull (a_type a);
-     am_ser := existsb (streq (final_name (a_type a))) (c_ser c) |}.
+     am_ser := existsb (streq (final_name (a_type a))) (c_ser c);
+     am_ty := a_type a |}.
 
 Definition is_nil {X} (l : list X) : bool := match l with [] => true | _ => false end.
 
@@ -219,6 +221,53 @@ Inductive bexpr :=
 Definition ser (j : json) : json := JObj [("ser", j)].
 Definition is_null (j : json) : bool := match j with JNull => true | _ => false end.
 
+(* custom_arguments._generate_serialize_expr (fix 3032a3a): serialize() once per occurrence, lists item
+   by item; `x if x is not None else None` around nullable positions and around the argument itself
+   (depth 0); a NON-NULL item position is NOT guarded.  A non-list value at a list type is outside the
+   harness' inputs (Python would iterate it); the model leaves it unchanged. *)
+Definition guardn (v e : json) : json := if is_null v then JNull else e.
+Definition lst (f : json -> json) (v : json) : json :=
+  match v with JArr l => JArr (map f l) | _ => v end.
+Fixpoint ser_t (top : bool) (t : gtype) (v : json) {struct t} : json :=
+  match t with
+  | TNamed _ => guardn v (ser v)
+  | TList it => guardn v (lst (ser_t false it) v)
+  | TNonNull t' =>
+      let e := match t' with
+               | TList it => lst (ser_t false it) v
+               | _ => ser v end in
+      if top then guardn v e else e
+  end.
+(* specification: null stays null wherever it stands; every other occurrence of the scalar is
+   serialised exactly once, lists element-wise *)
+Fixpoint ser_spec (t : gtype) (v : json) {struct t} : json :=
+  guardn v (match t with
+            | TNamed _ => ser v
+            | TList it => lst (ser_spec it) v
+            | TNonNull t' => match t' with
+                             | TList it => lst (ser_spec it) v
+                             | _ => ser v end
+            end).
+(* the caller's value has no None at a non-null ITEM position (there the generated code calls
+   serialize(None); the schema forbids such a value anyway) *)
+Fixpoint nn_ok (top : bool) (t : gtype) (v : json) {struct t} : bool :=
+  let items (it : gtype) := match v with JArr l => forallb (nn_ok false it) l | _ => true end in
+  match t with
+  | TNamed _ => true
+  | TList it => items it
+  | TNonNull t' => (top || negb (is_null v)) &&
+                   match t' with TList it => items it | _ => true end
+  end.
+(* shape of the generated expression, for K1: G = None guard, L = list comprehension, S = serialize call *)
+Fixpoint ser_shape (top : bool) (t : gtype) {struct t} : string :=
+  match t with
+  | TNamed _ => "G(S)"
+  | TList it => "G(L(" ++ ser_shape false it ++ "))"
+  | TNonNull t' =>
+      let e := match t' with TList it => "L(" ++ ser_shape false it ++ ")" | _ => "S" end in
+      if top then "G(" ++ e ++ ")" else e
+  end.
+
 (* body of a generated classmethod: the `arguments` dict, then `cleared_arguments` *)
 Fixpoint call_vars (ams : list argmeta) (args : list (string * json)) : option (list var) :=
   match ams with
@@ -229,8 +278,7 @@ Fixpoint call_vars (ams : list argmeta) (args : list (string * json)) : option (
              | None => if am_required am then None (* TypeError: missing positional *) else Some JNull
              end), call_vars r args with
       | Some v, Some vs =>
-          (* `ser(x) if x is not None else None` since fix f169519 *)
-          let v' := if am_ser am then (if is_null v then JNull else ser v) else v in
+          let v' := if am_ser am then ser_t true (am_ty am) v else v in
           Some (if is_null v' then vs
                 else {| v_name := am_gql am; v_type := am_type am; v_value := v' |} :: vs)
       | _, _ => None
@@ -501,7 +549,7 @@ Fixpoint ideal_vars (ams : list argmeta) (args : list (string * json)) : option 
       | Some v, Some vs =>
           Some (if is_null v then vs
                 else {| v_name := am_gql am; v_type := am_exact am;
-                        v_value := if am_ser am then ser v else v |} :: vs)
+                        v_value := if am_ser am then ser_spec (am_ty am) v else v |} :: vs)
       | _, _ => None
       end
   end.
@@ -642,6 +690,23 @@ Fixpoint g_shared (e : bexpr) : bool :=
   | On e0 _ es => recv_fresh e0 && g_shared e0 && all es
   end.
 
+(* g_conform: the arguments of every call respect non-null item positions of serialised scalars
+   (a precondition on the caller's values, not a finding class) *)
+Definition arg_value (am : argmeta) (args : list (string * json)) : json :=
+  match dlookup (am_gql am) args with Some v => v | None => JNull end.
+Definition args_conform (ams : list argmeta) (args : list (string * json)) : bool :=
+  forallb (fun am => negb (am_ser am) || nn_ok true (am_ty am) (arg_value am args)) ams.
+Fixpoint g_conform (ct : list classmeta) (e : bexpr) : bool :=
+  let all := fix go (l : list bexpr) : bool :=
+    match l with [] => true | x :: r => g_conform ct x && go r end in
+  match e with
+  | Attr _ _ => true
+  | Call cls f args => match find_fm ct cls f with Some fm => args_conform (fm_args fm) args | None => true end
+  | Fields e0 es => g_conform ct e0 && all es
+  | Alias e0 _ => g_conform ct e0
+  | On e0 _ es => g_conform ct e0 && all es
+  end.
+
 (* all formatted variable keys of an annotated object tree (inline part), traversal order *)
 Fixpoint all_keys (fuel : nat) (n : node) : list string :=
   match fuel with
@@ -731,7 +796,8 @@ Definition s_str (s : string) : sexp := A s.
 Definition s_okind (k : okind) : sexp :=
   A (match k with OFields => "fields" | OIface => "iface" | OUnion => "union" | OLeaf => "leaf" end).
 Definition s_argmeta (am : argmeta) : sexp :=
-  L [A (am_gql am); A (am_py am); A (am_type am); A (am_exact am); sB (am_required am); sB (am_ser am)].
+  L [A (am_gql am); A (am_py am); A (am_type am); A (am_exact am); sB (am_required am);
+     A (if am_ser am then ser_shape true (am_ty am) else "")].
 Definition s_fieldmeta (fm : fieldmeta) : sexp :=
   L [A (fm_py fm); A (fm_gql fm); A (fm_emit fm); sB (fm_method fm); A (fm_cls fm);
      s_okind (fm_okind fm); sList s_argmeta (fm_args fm)].
@@ -759,7 +825,7 @@ Definition s_ideal (l : list (sel (string * json))) : sexp :=
 Definition FUEL := 64.
 
 Definition guards_sexp (ct : list classmeta) (es : list bexpr) : sexp :=
-  L [sB (forallb g_shared es)].
+  L [sB (forallb g_shared es); sB (forallb (g_conform ct) es)].
 
 (* does the request resolve to the ideal? (the full property on this input, decided) *)
 Definition sel_eqb_sexp (a b : sexp) : bool :=
